@@ -278,7 +278,21 @@ int main(int argc, char ** argv)
       }
     const std::string st = "threads=" + std::to_string(nthreads <= 4 ? nthreads : (nthreads <= 8 ? 8 : 16)) + ",mask=" + std::to_string(mask);
     auto det = [&]() { return JObj().integer("threads", nthreads).integer("mask", mask).integer("iters", iters).integer("mismatching_results", mismatches).integer("overlapping_pairs", overlapping).done(); };
-    rep.note_input(uint64_t(idx) * 1000 + uint64_t(nthreads) * 64 + mask + (uint64_t(args.shard) << 32), true);
+    // the interleaving actually observed: thread ids in the order their iterations started (merged thread-local clocks)
+    {
+      std::vector<std::pair<double, int>> starts;
+      for (int t = 0; t < nthreads; ++t)
+        for (auto & sp : logs[size_t(t)].spans) starts.emplace_back(sp.first, t);
+      std::sort(starts.begin(), starts.end());
+      uint64_t h = 0xcbf29ce484222325ull;
+      long switches = 0;
+      for (size_t k = 0; k < starts.size(); ++k) {
+        h = hash_bytes(&starts[k].second, sizeof(int), h);
+        if (k && starts[k].second != starts[k - 1].second) ++switches;
+      }
+      rep.note_input(h, overlapping > 0);  // distinct_nontrivial = distinct observed start orderings with real overlap
+      rep.count("C18.thread_switches_in_start_order", switches);
+    }
     rep.judge(std::string(tsan ? "tsan" : "plain") + ".results_equal_sequential", st, L(mismatches), 0, det);
     rep.count("C18.overlapping_operation_pairs", overlapping);
     rep.count("C18.thread_iterations", long(nthreads) * iters);
